@@ -334,8 +334,9 @@ def gen_opts(rng, level=None):
 def cap_opts(ref, o):
     """the 268-heavy-atom chain is there for its atom indices, not for deep runs: few levels, moderate radius"""
     if ref == HUGE_REF:
-        o["level"] = {0: 0, 1: 1, 2: 2}.get(o["level"], 3)
-        o["radius_multiplier"] = min(o["radius_multiplier"], 1.718)
+        o["level"] = 2 if o["level"] in (0, 1, 2) else 3
+        o["radius_multiplier"] = min(max(o["radius_multiplier"], 1.0), 1.718)
+        o["remove_duplicate_substructs"] = True
     return o
 
 
